@@ -368,6 +368,9 @@ func (d *Decoder) DecodeFloat32() (float32, error) {
 	if d.offset >= len(d.p) {
 		return 0, io.ErrUnexpectedEOF
 	}
+	if len(d.p)-d.offset < 4 {
+		return 0, io.ErrUnexpectedEOF
+	}
 	v := binary.LittleEndian.Uint32(d.p[d.offset:])
 	fv := math.Float32frombits(v)
 	d.offset += 4
@@ -379,6 +382,9 @@ func (d *Decoder) DecodeFloat32() (float32, error) {
 // io.ErrUnexpectedEOF is returned if the operation would read past the end of the data.
 func (d *Decoder) DecodeFloat64() (float64, error) {
 	if d.offset >= len(d.p) {
+		return 0, io.ErrUnexpectedEOF
+	}
+	if len(d.p)-d.offset < 8 {
 		return 0, io.ErrUnexpectedEOF
 	}
 	v := binary.LittleEndian.Uint64(d.p[d.offset:])
@@ -811,9 +817,12 @@ func (d *Decoder) DecodePackedFloat32() ([]float32, error) { //nolint: dupl // F
 	}
 	d.offset += n
 	packedDataStart := d.offset
+	if l > uint64(len(d.p)-d.offset) {
+		return nil, io.ErrUnexpectedEOF
+	}
 	res = make([]float32, 0, l/4)
 	for nRead < l {
-		if d.offset >= len(d.p) {
+		if len(d.p)-d.offset < 4 {
 			return nil, io.ErrUnexpectedEOF
 		}
 		v := binary.LittleEndian.Uint32(d.p[d.offset:])
@@ -851,7 +860,7 @@ func (d *Decoder) DecodePackedFloat64() ([]float64, error) {
 	d.offset += n
 	packedDataStart := d.offset
 	for nRead < l {
-		if d.offset >= len(d.p) {
+		if len(d.p)-d.offset < 8 {
 			return nil, io.ErrUnexpectedEOF
 		}
 		v := binary.LittleEndian.Uint64(d.p[d.offset:])
